@@ -167,6 +167,26 @@ fn sweep(ctx: &Ctx) {
     } else {
         ctx.infra_problem(format!("{} is missing (run ./setup.sh)", nostd.display()));
     }
+    // the default-feature build without legacy-proving (a third feature set)
+    let nolegacy = std::path::Path::new(crate::runner::verif_root()).join("harness-nolegacy/target/fast/nolegacy-digest");
+    if nolegacy.exists() {
+        let mut cmd = Command::new(&nolegacy);
+        if thorough {
+            cmd.arg("thorough");
+        }
+        match cmd.output() {
+            Ok(o) if o.status.success() => {
+                let d = parse_lines(&String::from_utf8_lossy(&o.stdout));
+                if !compare(ctx, "build-without-legacy-proving", &base, &d) {
+                    return;
+                }
+                ctx.label("default-feature build without legacy-proving");
+            }
+            other => ctx.infra_problem(format!("no-legacy digest binary failed: {other:?}")),
+        }
+    } else {
+        ctx.infra_problem(format!("{} is missing (run ./setup.sh)", nolegacy.display()));
+    }
     // concurrent proving and verifying on shared keys
     let pp = shared_pp(thorough);
     let (size, a) = (1000usize, 6u64);
